@@ -520,7 +520,10 @@ impl fmt::Display for MatrixUri {
 
         if let Some(action) = self.action() {
             f.write_str(if first { "?action=" } else { "&action=" })?;
-            f.write_str(action.as_str())?;
+            // The parser reads the query as `application/x-www-form-urlencoded`.
+            for part in form_urlencoded::byte_serialize(action.as_str().as_bytes()) {
+                f.write_str(part)?;
+            }
         }
 
         Ok(())
